@@ -86,11 +86,13 @@ RECIPES = {
                     "WithDefaultOptions(Option('A', 5), {'A': 2})", "WithOptions(ds(Option('A'), Option('S.Y', 0)), {'S': {'X': 1}})"],
     "Cached": ["cached(Option('A'))", "cached(ds(Option('A'), Option('B', 2)))", "cached(switch(Option('A'), {1: Option('X')}, Option('Z', 3)))"],
     "Option": ["Option('A')", "Option('A', 5)", "Option('S.X', Option('B'))", "Option('A', '{B}')", "Option('A', domain=[1, 2])",
-               "Option('A', 1, domain=Option('DOM', [1, 2]))", "Option('L.0')"],
+               "Option('A', 1, domain=Option('DOM', [1, 2]))", "Option('L.0')", "Option('A', domain=lambda t: {2: True}[t])",
+               "Option('A', 7, domain=lambda t: {2: True, 7: True}[t])"],
     "Template": ["Template('{A}-{S.X}')", "Template('{A} {:p:}', p=Option('B', 2))"],
     "_AllOptions": ["AllOptions"],
     "Dataset": ["ds(Option('A'), Option('B', 2))", "ds(Option('A'), options={'B': 1})", "ds(ds(Option('A')), Option('S.X', 0), default_options={'S': {'X': 4}})",
-                "ds(Option('A'), callback=inc) if False else ds(Option('A'))"],
+                "ds(Option('A'), Option('S.B', 0), Option('S.C', 'c-fallback'), default_options={'S': {'B': 2, 'C': 3}, 'T': 5})",
+                "ds(Option('A'), Option('B', 0), options={'X': 1}, default_options={'B': 3})"],
     "Map": ["Map(Option('A'), {'A': Option('XS')}).apply(list)", "Map(ds(Option('A'), Option('B', 0)), {'A': Option('XS'), 'B': [1, 2]}).apply(list)"],
 }
 
@@ -138,6 +140,18 @@ def origin(e):
     return e
 
 
+def _overlap(a, b):
+    if not isinstance(a, dict) or not isinstance(b, dict):
+        return True
+    return any(k in b and _overlap(a[k], b[k]) for k in a)
+
+
+def chain(e):
+    while e is not None:
+        yield e
+        e = e.__cause__
+
+
 def is_missing(e):
     from labrea.exceptions import KeyNotFoundError
     return isinstance(origin(e), KeyNotFoundError)
@@ -145,6 +159,8 @@ def is_missing(e):
 
 def present(o, k):
     from confectioner.templating import dotted_key_exists
+    if not isinstance(k, str):
+        return False
     try:
         return dotted_key_exists(k, o)
     except TypeError:
@@ -253,6 +269,39 @@ def check_law(law, expr, o, fresh):
             shown = got if got[0] == "ok" else ("err", repr(got[1])[:120])
             return f"evaluate gives {shown!r}; the eager computation gives {want!r}"
         return None
+    if law == "C08":
+        from confectioner import mix
+        n = type(e).__name__
+        snap = copy.deepcopy(o)
+        if n == "WithOptions":
+            P0 = copy.deepcopy(e.options)
+            got = outcome(lambda: e(o))
+            want = outcome(lambda: fresh().evaluatable(mix(copy.deepcopy(o), P0) if e.force else mix(P0, copy.deepcopy(o))))
+            if not same(got, want):
+                return f"wrapper gives {got!r}; the wrapped expression under the overlaid dictionary gives {want!r}"
+            if o != snap or e.options != P0:
+                return "an input dictionary was modified"
+            return None
+        if n == "Dataset":
+            for Q in ({"B": 7}, {"S": {"A": 9}}, {"S": {"X": 8}, "T": 1}, {"A": 4}):
+                own, dfl = copy.deepcopy(e.options), copy.deepcopy(e.default_options)
+                if any(_shadowed(x, y) for x in (o, Q, own, dfl) for y in (o, Q, own, dfl)):
+                    continue      # F24: a scalar where another dictionary holds a section (mix is not associative there)
+                if not _overlap(Q, own):      # F20: precedence between own pre-set options and the derivative's is a recorded finding
+                    got = outcome(lambda: fresh().with_options(copy.deepcopy(Q))(copy.deepcopy(o)))
+                    want = outcome(lambda: fresh()(mix(copy.deepcopy(o), copy.deepcopy(Q))))
+                    if not same(got, want):
+                        return f"with_options({Q}) gives {got!r}; the dataset under o overlaid by it gives {want!r}"
+                got = outcome(lambda: fresh().with_default_options(copy.deepcopy(Q))(copy.deepcopy(o)))
+                want = outcome(lambda: fresh()(mix(copy.deepcopy(Q), copy.deepcopy(o))))
+                if not same(got, want):
+                    return f"with_default_options({Q}) gives {got!r}; the dataset under the defaults overlaid by o gives {want!r}"
+                d2 = fresh()
+                d2.with_options(Q)
+                if d2.options != own or d2.default_options != dfl:
+                    return "with_options modified the dataset it derives from"
+            return None
+        return None
     if law == "L6":
         ev = outcome(lambda: e(copy.deepcopy(o)))
         if ev[0] == "err":
@@ -261,12 +310,19 @@ def check_law(law, expr, o, fresh):
                 return f"evaluate raised {x!r}, not an EvaluationError"
             if x.source is not e:
                 return f"EvaluationError.source is {x.source!r}, not the object evaluate() was called on"
+            from labrea.exceptions import KeyNotFoundError
+            for y in chain(x):
+                if isinstance(y, KeyNotFoundError) and type(e).__name__ == "Option" and present(o, y.key) and y.key == e.key:
+                    return f"option {y.key!r} is supplied ({o}) but reported as a missing option: {y!r}"
+                if isinstance(y, KeyNotFoundError) and type(e).__name__ == "Option" and y.__cause__ is not None and not isinstance(y.__cause__, KeyNotFoundError) \
+                        and isinstance(y.__cause__, KeyError) and present(o, e.key) and not (isinstance(y.key, str) and ("{" + y.key + "}") in json.dumps(o)):
+                    return f"a KeyError raised by user code was reported as the missing option {y.key!r}: {y!r}"
         return None
     return None
 
 
 LAW_OF_GROUP = {"L1": ["L1"], "L2": ["L2"], "L3": ["L3"], "L4a": ["L4a"], "L4t": ["L4t"], "L5": ["L5"], "L5b": ["L5b"], "L5d": ["L5d"],
-                "L6": ["L6"], "L6v": ["L6v"], "C05": ["C05"]}
+                "L6": ["L6"], "L6v": ["L6v"], "C05": ["C05"], "C08": ["C08"], "with_options": ["C08"], "with_default_options": ["C08"], "tower": ["C08", "C05"]}
 
 
 def build(recipe):
@@ -311,7 +367,7 @@ def _shadowed(o, d, prefix=""):
 
 def known_region(recipe, o, law):
     """recorded findings (known_findings.json): inputs inside their regions are not reported again"""
-    if law == "C05":
+    if law in ("C05", "C08"):
         return False
     try:
         root = build(recipe)
